@@ -917,3 +917,7 @@ V('c03-array-items-generic', 'C03', 'C03.R3b',
 V('c02-huge-hex-in-message', 'C02', 'C02.R11',
   ('pywbem/_tupleparse.py', "                        data, cimtype, exc),", "                        value, cimtype, exc),"),
   'unbounded-int-text')
+V('c19-staging-extra-keyword', 'C19', 'C19.R13',
+  ('pywbem/_cim_operations.py', "                method='InvokeMethod',\n                MethodName=MethodName,\n                ObjectName=ObjectName,\n                Params=Params,\n                **params)",
+   "                method='InvokeMethod',\n                origin='api',\n                MethodName=MethodName,\n                ObjectName=ObjectName,\n                Params=Params,\n                **params)"),
+  'keyword-collision')
